@@ -253,8 +253,13 @@ _SERIAL = itertools.count(1)
 class ExprModule:
     """A generated module with one contracted function per distinct expression."""
 
-    def __init__(self, exprs: Dict[str, list], ic: Any) -> None:
+    ROLES = {"require": ("require", ""), "ensure": ("ensure", ""), "require_async": ("require", "async "),
+             "ensure_async": ("ensure", "async ")}
+
+    def __init__(self, exprs: Dict[str, list], ic: Any, role: str = "require") -> None:
         self.ic = ic
+        self.role = role
+        deco, prefix = self.ROLES[role]
         self.filename = "<icv-expr-{}>".format(next(_SERIAL))
         self.fn = {}  # type: Dict[str, Any]
         self.native = {}  # type: Dict[str, Any]
@@ -272,8 +277,8 @@ class ExprModule:
             n = len(self.fn) + 1
             self.fn[key] = "f{}".format(n)
             lines.append("def make{}(c):".format(n))
-            lines.append("    @icontract.require(lambda x, y: {})".format(txt))
-            lines.append("    def f(x, y):")
+            lines.append("    @icontract.{}(lambda x, y: {})".format(deco, txt))
+            lines.append("    {}def f(x, y, z='zed'):".format(prefix))
             lines.append("        return 1")
             lines.append("    return f, (lambda x, y: {}), (lambda x, y: {})".format(txt, render(tree, rec=True)))
             lines.append("f{0}, n{0}, r{0} = make{0}(5)".format(n))
@@ -297,6 +302,19 @@ class ExprModule:
         v = thunk()
         self.rec_log.append((pos, v))
         return v
+
+    def call(self, n: str, xv: Any, yv: Any) -> Any:
+        """Call the contracted function (drive it to completion if it is a coroutine function)."""
+        f = self.ns["f" + n]
+        if not self.role.endswith("_async"):
+            return f(xv, yv)
+        coro = f(xv, yv)
+        try:
+            coro.send(None)
+        except StopIteration as stop:
+            return stop.value
+        coro.close()
+        raise MachineryError("the coroutine of an expression case suspended")
 
     def close(self) -> None:
         linecache.cache.pop(self.filename, None)
@@ -334,7 +352,7 @@ def parse_message(msg: str, cond_text: str) -> Optional[Dict[str, str]]:
 
 
 def check_cases(res: CheckResult, prop_clauses: Dict[str, set], cases: List[dict], viol: Dict[int, dict],
-                py: Dict[int, dict], ic: Any) -> Dict[str, int]:
+                py: Dict[int, dict], ic: Any, role: str = "require") -> Dict[str, int]:
     """Replay every case; cross-check the specification's Python model against CPython; compare the message."""
     by_expr = {}  # type: Dict[str, list]
     for c in cases:
@@ -344,7 +362,7 @@ def check_cases(res: CheckResult, prop_clauses: Dict[str, set], cases: List[dict
     CH = 400
     for off in range(0, len(keys), CH):
         chunk = {k: by_expr[k] for k in keys[off:off + CH]}
-        mod = ExprModule(chunk, ic)
+        mod = ExprModule(chunk, ic, role)
         try:
             for c in cases:
                 key = json.dumps(c["expr"])
@@ -375,9 +393,8 @@ def check_cases(res: CheckResult, prop_clauses: Dict[str, set], cases: List[dict
                                              text, xv, yv, spec_py, cpy[:2], evaluated))
                 # 2. the implementation
                 mod.ident_calls = []
-                f = mod.ns["f" + n]
                 try:
-                    out = f(xv, yv)
+                    out = mod.call(n, xv, yv)
                     got = ("ret", out)  # type: Any
                 except ic.ViolationError as exc:
                     got = ("violation", str(exc))
@@ -413,7 +430,9 @@ def check_cases(res: CheckResult, prop_clauses: Dict[str, set], cases: List[dict
                 # what must be listed: the call arguments, and every shown node with the value Python computed
                 tx = {}  # type: Dict[int, str]
                 texts(tree, tx)
-                expect = {"x": repr(xv), "y": repr(yv)}
+                expect = {"x": repr(xv), "y": repr(yv), "z": "'zed'"}  # z: an argument the condition does not name
+                if "result" in lines and role.startswith("ensure"):
+                    expect["result"] = "1"
                 for pos, t, nn, ss in want["shown"]:
                     expect[tx[pos]] = repr(py_value({"t": t, "n": nn, "s": ss}, objs))
                 stats["lines_compared"] += len(expect)
